@@ -59,3 +59,30 @@ PROPS["C18"] = {
     "goals_not_proved": ["C18_fresh_full_goal is FALSE on the current tree (C18_tag_race_counterexample): known finding C18-tag-race",
                          "C18_wake (T2) not stated as a theorem"],
 }
+
+PROPS["C08"] = {
+    "lean_modules": ["MithrilModel.Properties.C08"],
+    "theorems": [
+        "C08.C08_mono_draw", "C08.C08_phi_one", "C08.phi_one_bits", "C08.C08_zero_stake", "C08.C08_true_correct",
+        "C08.C08_false_correct", "C08.C08_exact", "C08.C08_inexact_counterexample",
+    ],
+    "level_text": "Monotonicity in the draw, zero-stake loss, phi_f = 1 win and 'a win is never wrong' are unconditional Lean theorems "
+                  "about an exact-rational transliteration of is_lottery_won/taylor_comparison; exactness (decision = comparison with "
+                  "exp x outside the band 5x^(N+1)/(N+1)!) is proved against Mathlib's real exponential on the regime x <= 3/2. "
+                  "The transliteration is compared decision-for-decision with the working tree's eligibility.rs (compiled into the "
+                  "harness) on draws concentrated at threshold*(1 +- 2^-j); outside the proved regime the implementation's decisions "
+                  "are judged against a 900-bit reference. The invalid error term for x > 2.66 is a proved counter-example and a known finding.",
+    "level_note": "Trusted: Lean kernel + Mathlib (propext, Classical.choice, Quot.sound); f64::ln is an input of the model (its bits "
+                  "come from the Rust side); num-bigint/num-rational are modelled by Lean Int/Rat; monotonicity in stake is "
+                  "checked on generated pairs, not proved (goal listed).",
+    "harness": [("hcore", "c08")],
+    "anchors": ["mithril-stm/src/proof_system/concatenation/eligibility.rs"],
+    "rule": "case = (phi_f bits, ln bits, 512-bit draw, stake, total): 20 phi_f values incl. next-after-0 and 1-2^-53, totals up to 2^64-1, "
+            "stakes {0,1,t/3,t/2,t-1,t,random}, draws uniform / 0 / 2^512-1 / threshold*(1 +- 2^-j) with the threshold from a 1200-bit "
+            "fixed-point exp, cross-stake probes, random mixes; non-trivial = everything except the two extreme draws; distinct request lines",
+    "trivial_tags": ["extreme"],
+    "trusted_base": ["rustc/cargo; harness hcore/c08 (includes /repo's eligibility.rs by #[path])", "Mathlib v4.33 (Real.exp, Complex.exp_bound')"],
+    "assumptions": ["f64::ln(1-phi_f) is taken as computed by the platform libm", "num-integer backend (default feature); the rug backend is not modelled"],
+    "goals_not_proved": ["C08_mono_stake (monotone in stake): checked by S on generated pairs only",
+                         "exactness for 3/2 < x <= 2.65: judged against the 900-bit reference only"],
+}
